@@ -285,11 +285,23 @@ fn pt_case<E: Residual>(cli: &feos_verif::cli::Cli, idx: usize, label: &str, eos
     let mut v = String::from(HEADER);
     v.push_str(&format!("(* {label}: T = {kt} K, start rho_v = {rv0:e}, rho_l = {rl0:e}, tol = {tol:e}; mirror outcome {outcome} after {n} pass(es) *)\nDefinition c_kt := {}.\nDefinition c_tol := {}.\n", dyr(kt), dyr(tol)));
     let mut goals = 0;
+    let mut emitted = 0;
     for (k, p) in passes.iter().enumerate() {
         if !p.pnew.is_finite() || !p.rho_v.is_finite() {
             notes.push(format!("pass {k}: non-finite values, not emitted"));
             continue;
         }
+        // irregular passes (negative pressures, mechanically unstable states: a start outside the basin of the solver)
+        // are run and compared through the outcome only
+        if !(p.pold > 0.0 && p.q.iter().all(|&x| x > 0.0) && p.v.prho > 0.0 && p.l.prho > 0.0 && p.v.p > 0.0) {
+            notes.push(format!("pass {k}: irregular (negative pressure / unstable state), not emitted"));
+            continue;
+        }
+        if emitted >= 10 {
+            notes.push(format!("pass {k}: more than 10 passes, not emitted"));
+            continue;
+        }
+        emitted += 1;
         let (txt, g) = pt_pass_coq(k, kt, tol, p, &mut notes);
         v.push_str(&txt);
         goals += g;
@@ -424,6 +436,15 @@ fn pp_case<E: Residual>(cli: &feos_verif::cli::Cli, idx: usize, label: &str, eos
         if !(q.dt.is_finite() && q.rho_v.is_finite() && q.rho_l.is_finite()) {
             notes.push(format!("pass {k}: non-finite values, not emitted"));
             continue;
+        }
+        // ill-conditioned pass (the two states are (nearly) the same phase: dT is a quotient of two cancelling differences)
+        {
+            let ln_rho = (q.v.rho / q.l.rho).ln();
+            let den = q.v.sres - q.l.sres - ln_rho;
+            if (q.v.sres.abs() + q.l.sres.abs() + ln_rho.abs()) > 1e4 * den.abs() || (q.l.rho / q.v.rho - 1.0).abs() < 1e-3 {
+                notes.push(format!("pass {k}: ill-conditioned (nearly identical phases), not emitted"));
+                continue;
+            }
         }
         let nn = format!("s{k}");
         v.push_str(&format!("\n(* ---- pass {k} ---- *)\nDefinition {nn}_T := {}.\nDefinition {nn}_v := {}.\nDefinition {nn}_l := {}.\n", dyr(q.t), svp_coq(&q.v), svp_coq(&q.l)));
@@ -599,9 +620,9 @@ fn model_cases<E: Residual>(acc: &mut Acc, label: &str, eos: &Arc<E>, rng: &mut 
         };
         let (rv, rl) = (vle.vapor().density.to_reduced(), vle.liquid().density.to_reduced());
         // perturbed starts: small, medium, large (vapor density up to 30%, liquid density up to 3%)
-        let nstart = if full { 3 } else { 2 };
+        let nstart = if full { 3 } else { 1 };
         for s in 0..nstart {
-            let (av, al) = match s {
+            let (av, al) = match if full { s } else { acc.pt.len() % 2 } {
                 0 => (0.02, 0.002),
                 1 => (0.3, 0.03),
                 _ => (0.1, 0.01),
@@ -633,8 +654,9 @@ fn model_cases<E: Residual>(acc: &mut Acc, label: &str, eos: &Arc<E>, rng: &mut 
         }
         // pure_p from the solution at a neighbouring temperature
         let p = vle.vapor().pressure(Contributions::Total);
-        for g in [1.0 + 0.004 * rng.range(0.2, 1.0), 1.0 - 0.02 * rng.range(0.2, 1.0)] {
-            if f * g >= 0.995 {
+        let gs = [1.0 + 0.004 * rng.range(0.2, 1.0), 1.0 - 0.02 * rng.range(0.2, 1.0)];
+        for (gi, g) in gs.into_iter().enumerate() {
+            if f * g >= 0.995 || (!full && gi != acc.pp.len() % 2) {
                 continue;
             }
             if let Ok(init) = PhaseEquilibrium::pure(eos, t * g, Some(&vle), opts) {
@@ -678,22 +700,22 @@ pub fn run(cli: &feos_verif::cli::Cli, rng: &mut Rng) -> Value {
     };
     // fixed representatives of the model families named in the property
     let pr = Arc::new(configs::peng_robinson(1));
-    let f = pick(rng, 2);
+    let f = pick(rng, 1);
     model_cases::<PengRobinson>(&mut acc, "Peng-Robinson propane", &pr, rng, &f, full);
     let pets = Arc::new(configs::pets(1));
-    let f = pick(rng, 2);
+    let f = pick(rng, 1);
     model_cases::<Pets>(&mut acc, "PeTS argon", &pets, rng, &f, full);
     let vr = Arc::new(configs::saftvrmie(&["ethane"]));
-    let f = pick(rng, 2);
+    let f = pick(rng, 1);
     model_cases(&mut acc, "SAFT-VR Mie ethane", &vr, rng, &f, full);
     // seeded PC-SAFT records of the shipped collections (non-associating, polar, associating alike)
     let cat = sweep::catalogue();
     let pool: Vec<usize> = (0..cat.len()).filter(|&i| cat[i].0 == "pcsaft").collect();
-    let nrec = if full { 12 } else { 3 };
+    let nrec = if full { 8 } else { 2 };
     for _ in 0..nrec {
         let e = &cat[pool[rng.below(pool.len())]];
         if let Ok(eos) = sweep::pcsaft_of(&e.1, e.2) {
-            let f = pick(rng, 2);
+            let f = pick(rng, 1);
             model_cases(&mut acc, &format!("PC-SAFT {} ({}#{})", e.3, e.1, e.2), &eos, rng, &f, full);
         }
     }
